@@ -72,7 +72,7 @@ def selfcheck(chk, meta, names, arggen, n_cases, rtol=1e-11, atol=0.0, rtol_by_n
             lines.append("T1 %s %s" % (name, " ".join(common.f2h(x) for x in wire)))
             expect.append(e)
             descr.append((name, args))
-    ans = common.run_driver(lines)
+    ans = common.run_driver(lines, "T1")
     bad = 0
     for line, a, e, (name, args) in zip(lines, ans, expect, descr):
         chk.corr_cases += 1
